@@ -295,6 +295,7 @@ def poolOp (s : PSt) (op : String) : Option (List PSt) := do
   | "ib", [w, b, g] =>
     pure [{ s with pool := s.pool.setIdleBehavior (← w.toNat?) (← parseIB b) false (← parseBool g) now }]
   | "th", [""] => pure [{ s with threshold := now }]
+  | "tt", [""] => pure [s]   -- marker: the case's probe answers are truthful (used by the oracle only)
   | "sy", [r, ls] =>
     let r ← parseBool r
     let ls ← (if ls == "-" then some [] else (ls.splitOn "/").mapM parseListed)
